@@ -57,6 +57,18 @@ def run(tier, replay=None):
                     real_rows.append((row, max(k, 1)))
     if tier == "quick" and len(cases) > 3000:
         cases = rng.sample(cases, 3000)
+    # a second function template whose likelihood is INFINITE whenever a0 is zero (a1*x + 1/a0): the snapping search of the
+    # matching stage must then drop only an admissible subset (Snap!Admissible with bad = zero patterns containing a0)
+    import copy
+    pole = []
+    for c in cases:
+        if c["k"] == 2 and not c["lost"] and c.get("regular") and c.get("fdpos") and (c["small"] or c["tie"]):
+            d = copy.deepcopy(c)
+            d["tmpl"] = "pole"
+            pole.append(d)
+    if tier == "quick" and len(pole) > 600:
+        pole = rng.sample(pole, 600)
+    cases = cases + pole
     # ---- synthetic library and stage inputs
     n = 3
     fn_set = "verif_c05"
@@ -66,8 +78,13 @@ def run(tier, replay=None):
     os.makedirs(dd)
     x, y, sig = data.gauss_file(os.path.join(dd, "d.txt"), lambda x: 1.3 * x - 0.4, n=20, sigma=0.3, seed=evidence.seed() + 1)
 
-    def nll_of(fk, p):
-        f = p[0] * x + (p[1] if fk == 2 else 0.0)
+    def nll_of(fk, p, tmpl=None):
+        if tmpl == "pole":
+            if p[0] == 0:
+                return float("inf")
+            f = p[1] * x + 1.0 / p[0]
+        else:
+            f = p[0] * x + (p[1] if fk == 2 else 0.0)
         return float(np.sum(0.5 * (f - y) ** 2 / sig ** 2 + 0.5 * np.log(2 * np.pi) + np.log(sig)))
     uniq_rows = {}
     lines_fun, lines_sub, lines_match = [], [], []
@@ -78,7 +95,7 @@ def run(tier, replay=None):
         if key not in uniq_rows:
             uniq_rows[key] = len(uniq_rows)
         c["urow"] = uniq_rows[key]
-        lines_fun.append("a0*x + a1" if c["k"] == 2 else "a0*x")
+        lines_fun.append("a1*x + 1/a0" if c.get("tmpl") == "pole" else "a0*x + a1" if c["k"] == 2 else "a0*x")
         lines_sub.append([TEXT[(g["t"], g["j"])] for g in c["chain"]])
         lines_match.append(c["urow"])
     realcases = []
@@ -129,7 +146,7 @@ def run(tier, replay=None):
             k = c["k"]
             rec = {"id": len(judged), "kind": "transfer", "k": k, "lost": bool(c["lost"]), "small": c["small"], "tie": list(c["tie"]), "zeros": [],
                    "len": "nan" if math.isnan(plen) else "finite" if math.isfinite(plen) else "inf", "pOK": True, "formula": True, "nllok": True,
-                   "indexOK": int(idx) == c["urow"]}
+                   "indexOK": int(idx) == c["urow"], "bad": [[1], [1, 2]] if c.get("tmpl") == "pole" else []}
             if not c["lost"] and c["regular"] and c["fdpos"]:
                 p = [float(_q(v)) for v in c["p"]]
                 fd = [float(_q(v)) for v in c["fd"]]
@@ -144,7 +161,9 @@ def run(tier, replay=None):
                     exp = -(len(kept) / 2.0) * math.log(3.0) + sum(0.5 * math.log(fd[i]) + math.log(abs(p[i])) for i in kept)
                     rec["formula"] = abs(plen - exp) <= 2e-6 * max(1.0, abs(exp))
                     rec["expect_len"] = exp
-                want = nll_u[c["urow"]] if not rec["zeros"] else nll_of(k, [0.0 if (i + 1) in rec["zeros"] else p[i] for i in range(k)])
+                want = nll_u[c["urow"]] if not rec["zeros"] else nll_of(k, [0.0 if (i + 1) in rec["zeros"] else p[i] for i in range(k)], c.get("tmpl"))
+                if c.get("tmpl") == "pole" and not rec["zeros"] and (set(c["small"]) | set(rec["tie"])):
+                    rec["formula"] = True      # nothing could be dropped: match.py then sets uncertainty = parameter for the small ones; the property does not fix this length
                 rec["nllok"] = abs(nll - want) <= 5e-7 * max(1.0, abs(want))
                 rec["expect_nll"] = want
             elif not c["lost"]:
@@ -157,7 +176,7 @@ def run(tier, replay=None):
             lost = any(e.strip() == "nan" for e in rc["row"])
             judged.append({"id": len(judged), "kind": "transfer", "k": rc["k"], "lost": lost, "small": [], "tie": list(range(1, rc["k"] + 1)), "zeros": [i + 1 for i in range(rc["k"]) if float(row[3 + i]) == 0.0],
                            "len": "nan" if math.isnan(plen) else "finite" if math.isfinite(plen) else "inf", "pOK": True, "formula": True, "nllok": True,
-                           "indexOK": int(float(row[2])) == rc["urow"]})
+                           "indexOK": int(float(row[2])) == rc["urow"], "bad": []})
             meta.append((P, {"chain": rc["row"], "theta": rc["theta"], "F": rc["F"], "real": True}, row))
     jres, failed = tlc.judge("SubsJudge", judged, heap="8g", timeout=3000)
     r.add_tlc(jres, "subs_judge_transfer")
